@@ -85,6 +85,7 @@ type callRec struct {
 	sizes     []int
 	cutInAttr bool
 	sent      bool
+	sentStart int  // stream offset of the reply's first byte
 	sentEnd   int  // stream offset just after the reply
 	armed     bool // the caller's timeout has been observed; the held reply may be released
 	outcome   string
@@ -121,6 +122,9 @@ func (d *dev) Input(c *devsim.Conn, b []byte) {
 	d.Server.Input(c, b)
 	if d.h.cur >= 0 {
 		d.h.writesInCall++
+		if call := d.h.s.Calls[d.h.cur]; call.Plan == "now" && call.AfterWrites > 0 && d.h.writesInCall >= call.AfterWrites {
+			d.h.send(c, d.h.cur) // no-op until the request has been seen
+		}
 		d.h.fire(c, fmt.Sprintf("next-write-%d", d.h.writesInCall))
 	}
 }
@@ -130,7 +134,10 @@ func (h *harness) send(c *devsim.Conn, k int) {
 	if rc.sent || rc.payload == nil {
 		return
 	}
-	c.Mark() // whatever precedes (an echo fragment) is a server message of its own
+	if !h.s.NoEchoMark {
+		c.Mark() // an echo fragment that precedes is delivered apart from the reply
+	}
+	rc.sentStart = c.Generated()
 	h.srv.Send(c, rc.payload, rc.sizes)
 	rc.sentEnd = c.Generated()
 	rc.sent = true
@@ -182,7 +189,7 @@ func (h *harness) onMsg(_ *ncsim.Server, c *devsim.Conn, m *ncsim.Msg) {
 		rc.cutInAttr = cutInsideAttr(rc.payload, call.Cuts)
 	}
 	h.fire(c, "with-next-before")
-	if call.Plan == "now" || call.Plan == "local" {
+	if (call.Plan == "now" && call.AfterWrites == 0) || call.Plan == "local" {
 		h.send(c, k)
 	}
 }
@@ -282,7 +289,7 @@ func RunSession(s Session) mon.Result {
 	if s.Version == "1.1" {
 		caps = append(caps, ncsim.Cap11)
 	}
-	srv := &ncsim.Server{HelloBytes: ncsim.Hello(caps, "7"), Echo: s.Echo}
+	srv := &ncsim.Server{HelloBytes: ncsim.Hello(caps, "7"), Echo: s.Echo, NoEchoMark: s.Echo && s.NoEchoMark}
 	h := &harness{s: s, srv: srv, cur: -1, recs: make([]callRec, len(s.Calls)), prevOutcome: "open"}
 	srv.OnMsg = h.onMsg
 	conn := devsim.NewConn(&dev{Server: srv, h: h}, devsim.Config{Seg: s.Seg, KeepData: true})
@@ -294,7 +301,34 @@ func RunSession(s Session) mon.Result {
 	defer conn.Abandon()
 
 	var hist []string
+	genAtCallStart := 0
+	// echoTailSharedRead: during the current call some reply began in the middle of a transport read
+	// whose first bytes were echoed client bytes (possible only without echo marks).
+	echoTailSharedRead := func() bool {
+		if !s.NoEchoMark {
+			return false
+		}
+		var recs []callRec
+		conn.Do(func() { recs = append(recs, h.recs...) })
+		off := 0
+		for _, e := range conn.Log() {
+			if e.Kind != "read" {
+				continue
+			}
+			start := off
+			off += e.N
+			for i := range recs {
+				if rc := &recs[i]; rc.sent && rc.sentStart >= genAtCallStart && start < rc.sentStart && off > rc.sentStart {
+					return true
+				}
+			}
+		}
+		return false
+	}
 	bad := func(key, f string, a ...interface{}) mon.Result {
+		if !strings.Contains(key, "echo-tail-shares-read-with-reply") && echoTailSharedRead() {
+			key += "+echo-tail-shares-read-with-reply"
+		}
 		return mon.Result{Verdict: mon.Violated, Key: key, NonTrivial: true,
 			Detail: fmt.Sprintf(f, a...) + "\nhistory: " + strings.Join(lastHist(hist), " | "),
 			Events: tail(conn.Log(), 80)}
@@ -326,7 +360,7 @@ func RunSession(s Session) mon.Result {
 	obs := map[string]int64{"sessions": 1, "calls": int64(len(s.Calls))}
 	tagset := map[string]bool{
 		"ver=" + s.Version: true, fmt.Sprintf("echo=%v", s.Echo): true, "profile=" + s.Profile: true,
-		fmt.Sprintf("seg=%s/%d", s.Seg.Mode, s.Seg.Size): true, fmt.Sprintf("cell=%s/echo=%v", s.Version, s.Echo): true,
+		fmt.Sprintf("seg=%s/%d", s.Seg.Mode, s.Seg.Size): true, fmt.Sprintf("echo-marked=%v", s.Echo && !s.NoEchoMark): true, fmt.Sprintf("cell=%s/echo=%v", s.Version, s.Echo): true,
 	}
 	sawTimeout := false
 	critA, critB, critC := false, false, false
@@ -338,7 +372,7 @@ func RunSession(s Session) mon.Result {
 		if call.Plan == "late" || call.Plan == "never" {
 			to = shortTimeout
 		}
-		conn.Do(func() { h.cur = k; h.writesInCall = 0 })
+		conn.Do(func() { h.cur = k; h.writesInCall = 0; genAtCallStart = conn.Generated() })
 		start := time.Now()
 		res, err := invoke(d, call, to)
 		var rc callRec
@@ -359,6 +393,9 @@ func RunSession(s Session) mon.Result {
 		})
 		tagset["kind="+call.Kind] = true
 		tagset["plan="+call.Plan] = true
+		if call.Plan == "now" {
+			tagset[fmt.Sprintf("reply-after-writes=%d", call.AfterWrites)] = true
+		}
 		if call.CutKind != "" {
 			tagset["cut="+call.CutKind] = true
 		}
@@ -429,6 +466,11 @@ func RunSession(s Session) mon.Result {
 				hist = append(hist, desc+" → WRONG RESULT")
 				for j, o := range s.Calls {
 					if j != k && strings.Contains(res.Result+string(res.RawResult), o.Nonce) {
+						if strings.Contains(res.Result, call.Nonce) && strings.Contains(res.Result, fmt.Sprintf(`message-id="%d"`, rc.reqID)) {
+							return bad(fmt.Sprintf("c08/reply-glued-with-other-reply:%s:echo=%v", s.Version, s.Echo),
+								"call %d (id %d): result carries its own reply AND bytes of the reply to call %d (id %d, plan %s/%s)\n got: %q\n raw: %q",
+								k, rc.reqID, j, h.recs[j].reqID, o.Plan, o.Release, clip(res.Result), clip(string(res.RawResult)))
+						}
 						rel := "earlier"
 						if j > k {
 							rel = "later"
@@ -508,6 +550,8 @@ func RunSession(s Session) mon.Result {
 				}
 				cause := fmt.Sprintf("%s:echo=%v:after-%s", s.Version, s.Echo, h.prevOutcome)
 				switch {
+				case echoTailSharedRead():
+					cause = fmt.Sprintf("%s:echo-tail-shares-read-with-reply:after-%s", s.Version, h.prevOutcome)
 				case rc.cutInAttr && call.Decoy != "":
 					cause = s.Version + ":chunk-boundary-inside-message-id-attribute+message-id-text-in-body"
 				case rc.cutInAttr:
@@ -575,9 +619,31 @@ func RunSession(s Session) mon.Result {
 	}
 
 	log := conn.Log()
+	var recs []callRec
+	conn.Do(func() { recs = append(recs, h.recs...) })
+	off := 0
 	for _, e := range log {
-		if e.Kind == "read" {
-			obs["reads"]++
+		if e.Kind != "read" {
+			continue
+		}
+		obs["reads"]++
+		start := off
+		off += e.N
+		for i := range recs {
+			// without echo marks a read that starts before a reply and reaches into it begins with
+			// echoed client bytes (every reply is followed by a mark)
+			if rc := &recs[i]; rc.sent && start < rc.sentStart && off > rc.sentStart {
+				obs["reads_with_echo_tail_and_reply_start"]++
+				if off >= rc.sentEnd {
+					obs["reads_with_echo_tail_and_whole_reply"]++
+					if s.Calls[i].AfterWrites > 0 {
+						obs["reads_with_echo_tail_and_whole_reply_nothing_after"]++
+					}
+					if s.Calls[i].Plan == "late" {
+						obs["reads_with_echo_tail_and_whole_late_reply"]++
+					}
+				}
+			}
 		}
 	}
 	if maxID > 200 {
@@ -591,7 +657,7 @@ func RunSession(s Session) mon.Result {
 	nontrivial := obs["requests_seen"] >= 3 && (critA || critB || critC)
 	return mon.Result{Verdict: mon.Held, NonTrivial: nontrivial, Obs: obs, Tags: tags,
 		Sample: map[string]interface{}{
-			"config":    fmt.Sprintf("v=%s echo=%v seg=%s/%d profile=%s", s.Version, s.Echo, s.Seg.Mode, s.Seg.Size, s.Profile),
+			"config":    fmt.Sprintf("v=%s echo=%v noechomark=%v seg=%s/%d profile=%s", s.Version, s.Echo, s.NoEchoMark, s.Seg.Mode, s.Seg.Size, s.Profile),
 			"history":   clipHist(hist),
 			"first_ok":  firstOK,
 			"transport": devsim.Summary(log),
